@@ -2137,7 +2137,7 @@ func deletePrivateKeys(ns walletdb.ReadWriteBucket) error {
 					return managerError(ErrDatabase, str, err)
 				}
 
-			case adtWitnessScript:
+			case adtWitnessScript, adtTaprootScript:
 				srow, err := deserializeWitnessScriptAddress(row)
 				if err != nil {
 					return err
